@@ -105,7 +105,7 @@ func (mod *Module) findIdentityBase(baseStr string) (*resolvedIdentity, []error)
 			errs = append(errs, fmt.Errorf("%s: can't resolve the local base %s: the module that %s belongs to is not loaded", source, baseStr, mod.Name))
 			break
 		}
-		keyName := fmt.Sprintf("%s:%s", owner.Name, baseName)
+		keyName := identityKey(owner, baseName)
 		base, ok = typeDict.identities.dict[keyName]
 		if !ok {
 			errs = append(errs, fmt.Errorf("%s: can't resolve the local base %s as %s", source, baseStr, keyName))
@@ -119,7 +119,7 @@ func (mod *Module) findIdentityBase(baseStr string) (*resolvedIdentity, []error)
 			break
 		}
 		// The identity we are looking for is modulename:basename.
-		if id, ok := typeDict.identities.dict[fmt.Sprintf("%s:%s", module(extmod).Name, baseName)]; ok {
+		if id, ok := typeDict.identities.dict[identityKey(module(extmod), baseName)]; ok {
 			base = id
 			break
 		}
@@ -145,8 +145,8 @@ func (ms *Modules) resolveIdentities() []error {
 	// name of the identity.
 	for _, mod := range ms.Modules {
 		for _, i := range mod.Identities() {
-			keyName, r := newResolvedIdentity(mod, i)
-			ms.typeDict.identities.dict[keyName] = *r
+			_, r := newResolvedIdentity(mod, i)
+			ms.typeDict.identities.dict[identityKey(mod, i.Name)] = *r
 		}
 
 		// Hoist up all identities in our included submodules, and in
@@ -162,8 +162,8 @@ func (ms *Modules) resolveIdentities() []error {
 				}
 				hoisted[in.Module] = true
 				for _, i := range in.Module.Identities() {
-					keyName, r := newResolvedIdentity(in.Module, i)
-					ms.typeDict.identities.dict[keyName] = *r
+					_, r := newResolvedIdentity(in.Module, i)
+					ms.typeDict.identities.dict[identityKey(mod, i.Name)] = *r
 				}
 				hoist(in.Module)
 			}
@@ -220,4 +220,11 @@ func (ms *Modules) resolveIdentities() []error {
 	}
 
 	return errs
+}
+
+// identityKey is the key of the identity dictionary for the identity name
+// of module m. Several revisions of a module may be loaded, each with
+// identities of its own, so the key carries the revision.
+func identityKey(m *Module, name string) string {
+	return fmt.Sprintf("%s:%s", m.FullName(), name)
 }
